@@ -150,16 +150,20 @@ theorem hi_unpauseRequest {s : State} (hi : LInv (acc s)) (hp : s.park = none) (
     · rename_i hst
       have hst' : r.state = .paused := by simpa using hst
       rw [hst'] at he
-      have h1 := acc_setState s id .queued he
+      have hm : acc (modAux s id fun a => { a with sigPause := false }) = acc s := acc_modAux _ _ _ (fun _ => rfl)
+      have hpm : (modAux s id fun a => { a with sigPause := false }).park = none := hp
+      have h1 : acc (setState (modAux s id fun a => { a with sigPause := false }) id .queued) =
+          { acc s with ent := fupd (acc s).ent id (some (r.peer, .queued, r.aux.task)) } := by
+        rw [acc_setState _ id .queued ((congrFun (congrArg Acc.ent hm) id).trans he), hm]
       split
-      · generalize hx : execTx (setState s id .queued) .mgr r.peer id [TxOp.ext] = pr
+      · generalize hx : execTx (setState _ id .queued) .mgr r.peer id [TxOp.ext] = pr
         obtain ⟨s2, ok⟩ := pr
         have h2 : acc s2 = _ := (acc_execTx hx).trans h1
         have hp2 : s2.park = none ∨ True := Or.inr trivial
         simp only
         split
         · refine ⟨linv_unpauseFinish hi he hun h2, pu_of_none (park_unpauseFinish ?_ id)⟩
-          exact pcore_none_of_pi_eq (pi_execTx_eq hx) (s := setState s id .queued) hp
+          exact pcore_none_of_pi_eq (pi_execTx_eq hx) (s := setState _ id .queued) hpm
         · constructor
           · rw [acc_parkMgr, h2]
             have := hi.unpausePark r.peer id r.aux.task he hun (pnew_none' hp)
@@ -167,7 +171,8 @@ theorem hi_unpauseRequest {s : State} (hi : LInv (acc s)) (hp : s.park = none) (
             exact this
           · intro i pl p' i' ops hc
             simp [parkMgr, parkCore] at hc
-      · exact ⟨linv_unpauseFinish hi he hun h1, pu_of_none (park_unpauseFinish (s := setState s id .queued) hp id)⟩
+      · exact ⟨linv_unpauseFinish hi he hun h1, pu_of_none (park_unpauseFinish
+          (s := setState (modAux s id fun a => { a with sigPause := false }) id .queued) hpm id)⟩
 
 -- ------------------------------------------------------------------ processUpdate
 theorem linv_procUpdateFinish {s : State} (hi : LInv (acc s)) (hp : s.park = none) (id : Id) (plan : UP)
